@@ -2,7 +2,13 @@
    definitions / order laws of C20 on the implementation's own outputs.  The naive byte counts,
    the "cleared exactly the window" check, prefix and length checks are written here directly on
    OCaml strings (independent of the model); UTF-8 validity (RFC 3629), the token key order and
-   the leading-zero normal form are the extracted MstrSpec definitions. *)
+   the leading-zero normal form are the extracted MstrSpec definitions.  The order laws of
+   CompareNatural (range, antisymmetry, transitivity, congruence, reflexivity) are asserted on the
+   implementation's outputs for ALL strings; the numeric reading and "0 iff equal up to leading
+   zeros" wherever every digit run is <= MaxInt64 (decided here on the characters). *)
+
+(* supporting runs (checkptr, incoq) report failing inputs with _ for blanks *)
+let words s = words (String.map (fun c -> if c = '_' then ' ' else c) s)
 
 let zbytes s = if s = "-" then [] else
   List.init (String.length s / 2) (fun i -> z_of_int (int_of_string ("0x" ^ String.sub s (2*i) 2)))
@@ -40,14 +46,35 @@ let naive_leading w = let n = String.length w in let rec go i = if i < n && w.[i
 let naive_trailing w = let n = String.length w in let rec go k = if k < n && w.[n-1-k] = '\000' then go (k+1) else k in go 0
 
 let is_digit c = c >= '0' && c <= '9'
-let short_runs s =
-  let ok = ref true and k = ref 0 in
-  String.iter (fun c -> if is_digit c then (incr k; if !k > 18 then ok := false) else k := 0) s; !ok
+
+(* every maximal digit run spells a number <= MaxInt64 (leading zeros do not count): decided on the
+   characters, without any arithmetic *)
+let max_int64 = "9223372036854775807"
+let run_fits r =
+  let n = String.length r in
+  let rec nz i = if i < n && r.[i] = '0' then nz (i+1) else i in
+  let k = nz 0 in
+  let d = String.sub r k (n - k) in
+  String.length d < 19 || (String.length d = 19 && d <= max_int64)
+let runs_fit s =
+  let ok = ref true and cur = Buffer.create 16 in
+  let flush () = if Buffer.length cur > 0 then (if not (run_fits (Buffer.contents cur)) then ok := false; Buffer.clear cur) in
+  String.iter (fun c -> if is_digit c then Buffer.add_char cur c else flush ()) s; flush (); !ok
 
 let zs_of_raw s = List.init (String.length s) (fun i -> z_of_int (Char.code s.[i]))
 let key_order a b = int_of_z (M.key_cmp (M.key (zs_of_raw a)) (M.key (zs_of_raw b)))
 
 let sgn x = compare x 0
+
+(* A digit run beyond MaxInt64 overflows parseInt's int accumulator.  CompareNatural's doc comment
+   states no bound, but the property text of C20 quantifies over "runs short enough not to
+   overflow int": outside that domain nothing is asserted about the VALUE of the result (the lead's
+   decision: not a finding against C20; see C20_compare_overflow_refuted and notes/C20.md).  The
+   order laws are asserted there like everywhere else, and the model, which wraps like Go's int,
+   must still reproduce the implementation's answer (correspondence). *)
+let overflow_seen = ref 0
+let overflow_case (_ : string) (_ : string) (_ : string) (_ : string) : string option =
+  incr overflow_seen; None
 
 let spec prop inp out =
   if prop <> "C20" then None else
@@ -89,25 +116,32 @@ let spec prop inp out =
     if panicked then Some "CompareNatural panics" else
     let c = (try int_of_string out with _ -> 99) in
     if c < -1 || c > 1 then Some "result outside {-1,0,1}"
-    else if short_runs a && short_runs b then begin
+    else if a = b && c <> 0 then Some "a string does not compare equal to itself"
+    else begin
       let k = key_order a b in
       let same = M.normal_form (zs_of_raw a) = M.normal_form (zs_of_raw b) in
-      if c <> k then Some (Printf.sprintf "the token-key order gives %d" k)
-      else if (c = 0) <> same then Some "result is 0 but the strings are not equal up to leading zeros of digit runs (or the converse)"
-      else None
-    end else None
+      let why =
+        if c <> k then Some (Printf.sprintf "the token-key order gives %d" k)
+        else if (c = 0) <> same then Some "result is 0 but the strings are not equal up to leading zeros of digit runs (or the converse)"
+        else None in
+      match why with
+      | None -> None
+      | Some r when runs_fit a && runs_fit b -> Some r
+      | Some r -> overflow_case a b out r
+    end
   | ["X"; a; b; c] ->
     let a = raw a and b = raw b and c = raw c in
     if panicked then Some "CompareNatural panics" else
     (match List.map int_of_string (words out) with
      | [ab; bc; ac; ba; cb; ca] ->
+       (* the order laws are asserted for ALL strings, overflowing digit runs included *)
        if List.exists (fun x -> x < -1 || x > 1) [ab; bc; ac; ba; cb; ca] then Some "result outside {-1,0,1}"
-       else if not (short_runs a && short_runs b && short_runs c) then None
        else if ab <> -ba || bc <> -cb || ac <> -ca then Some "not antisymmetric: cmp(x,y) <> -cmp(y,x)"
        else if ab <= 0 && bc <= 0 && ac > 0 then Some "not transitive: a<=b, b<=c but a>c"
        else if ab >= 0 && bc >= 0 && ac < 0 then Some "not transitive: a>=b, b>=c but a<c"
        else if ab <= 0 && bc <= 0 && ac = 0 && (ab <> 0 || bc <> 0) then Some "not transitive: a<=b<=c with a strict step but a~c"
        else if ab = 0 && ac <> bc then Some "equivalent strings compare differently against a third"
+       else if not (runs_fit a && runs_fit b && runs_fit c) then None
        else if ab <> key_order a b || bc <> key_order b c || ac <> key_order a c then Some "differs from the token-key order"
        else None
      | _ -> Some "bad output syntax")
